@@ -257,10 +257,6 @@ fn run_value(
                 }
             }
         }
-        if vidx == 1 && ty.nodes() >= 2 {
-            acc.sample(json!({"sig": ty.sig(), "value": norm.show(),
-                "reference_le_offset_1": hex(&refdbus::encode(&norm, false, 1).buf)}));
-        }
     })
 }
 
@@ -345,6 +341,22 @@ pub fn main(args: &Args) -> i32 {
             run_value(&mut acc, ty, vidx, rvv, &[false, true], &offsets, &bank, None, false);
         }
         acc.flush(&report);
+    });
+    // deterministic samples
+    zvx::with_fds(|fds| {
+        for (sig, idx) in [("a{sy}", 2usize), ("(yx)", 3), ("av", 3), ("a(t)", 2), ("(hh)", 1), ("a{yv}", 1), ("aas", 3)] {
+            let Some(ty) = rv::parse_ty(sig) else { continue };
+            let mut capped = false;
+            let vals = rv::values(&ty, &rv::Domain::standard(CAP), &mut capped);
+            let Some(v) = vals.get(idx) else { continue };
+            let Ok(norm) = zvx::normalize(v, fds) else { continue };
+            let val = rv::to_value(&norm, fds).unwrap();
+            let real = zvx::enc_dyn(&val, zvx::ctxt(false, true, 3));
+            report.sample(json!({"sig": sig, "value": norm.show(), "big_endian": true, "offset": 3,
+                "reference": hex(&refdbus::encode(&norm, true, 3).buf),
+                "real_dyn": real.as_ref().map(|e| hex(e.bytes())).unwrap_or_default(),
+                "attached_fds": real.as_ref().map(|e| e.fd_inodes().len()).unwrap_or(0)}));
+        }
     });
     report.assume("the reference marshaller refdbus::encode is the D-Bus wire format (written from the specification; audited against libdbus separately)");
     report.assume("a repeated fd may share one attachment or use one per occurrence; both index policies are accepted");
